@@ -15,7 +15,9 @@
              with a configuration that creation refuses it may panic later in
              its watching goroutine, which would take the harness down)
    Verdict bits: 1 = the model disagrees with the implementation;
-   2 = check_C37 fails on what the implementation did (KCreate only);
+   2 = check_C37 fails on what the implementation did (KCreate), or a supported
+       value of the real enumeration does not survive MarshalText/UnmarshalText
+       (KTable);
    8 = the case is outside the harness's stated domain. *)
 From Coq Require Import List String Bool NArith.
 Import ListNotations.
@@ -27,6 +29,9 @@ Local Open Scope N_scope.
 Definition Cf := Build_config.
 Definition Ob := Build_endpoint_obs.
 Definition C0 := empty_config.
+(* Case files do not open N_scope (the failure list must print as plain
+   numerals): numerals reach N through the argument scopes of the constructors
+   below; inside the lists of KTable they carry an explicit %N. *)
 
 Inductive ccase :=
 | KTable (name : string) (count : N)
@@ -87,6 +92,12 @@ Definition const_ok (name : string) (v : N) : bool :=
   else if String.eqb name "EnumerationCount" then N.eqb v (N.of_nat (List.length all_enums))
   else false.
 
+(* the property itself on the real code's rows: a supported value, written as
+   text, is read back as the same value *)
+Definition table_row_roundtrips (r : N * option string * N * option N) : bool :=
+  let '(v, m, s, u) := r in
+  if N.eqb s 2 then match m with Some _ => opt_N_eqb u (Some v) | None => false end else true.
+
 Definition obs_eqb (x y : endpoint_obs) : bool :=
   config_eqb (o_merged x) (o_merged y) && N.eqb (o_remote x) (o_remote y)
   && (if N.eqb (o_local y) 3 then true      (* 3 = local endpoint not run (creation refused) *)
@@ -97,7 +108,9 @@ Definition obs_eqb (x y : endpoint_obs) : bool :=
 
 Definition config_verdict (k : ccase) : nat :=
   match k with
-  | KTable n cnt rws texts => if table_ok n cnt rws texts then 0 else 1
+  | KTable n cnt rws texts =>
+      ((if table_ok n cnt rws texts then 0 else 1)
+       + (if forallb table_row_roundtrips rws then 0 else 2))%nat
   | KConst n v => if const_ok n v then 0 else 1
   | KValid es c r => if N.eqb (ensure_valid es c) r then 0 else 1
   | KMerge lo hi r => if config_eqb (merge lo hi) r then 0 else 1
